@@ -661,6 +661,10 @@ func (encryptor *QueryDataEncryptor) encryptValuesWithPlaceholders(ctx context.C
 		}
 		changed = true
 		setting := schema.GetColumnEncryptionSettings(columnName)
+		// NULL and empty values are passed as is and shouldn't be decoded according to column's type
+		if rawData, err := values[valueIndex].GetData(nil); err == nil && len(rawData) == 0 {
+			continue
+		}
 		valueData, err := values[valueIndex].GetData(setting)
 		if err != nil {
 			return nil, false, err
